@@ -1,9 +1,10 @@
-(* Base/Universe.v — the Go type / value universe shared by C12 (serialisation) and
-   C15 (field mapping).  Definitions and small reflection lemmas only; stdlib only.
+(* Base/Universe.v — the Go type / value universe of C12 (serialisation).  Definitions
+   and small reflection lemmas only; stdlib only.  (C15 uses its own Base/FMUniverse.v.)
 
    Types   : basic kinds, named basic types, struct types (fields looked up in a struct
              environment, so recursive types are fine), pointers at any depth, slices,
-             maps, named interface types, [any].
+             maps, arrays, defined container types (type T []E / map[K]V / [n]E), named
+             interface types, [any].
    Values  : every value carries enough type information to compute its own static type
              [ty_of]: nil pointers carry their element type, containers their element /
              key types (nil and empty are distinct), an interface box carries the
@@ -130,7 +131,9 @@ Inductive ty : Type :=
 | TSlice (t : ty)
 | TMap (k t : ty)
 | TIface (i : N)                   (* named interface type (method sets are not modelled) *)
-| TAny.
+| TAny
+| TArray (n : nat) (t : ty)        (* [n]t *)
+| TDef (d : N) (u : ty).           (* defined container type: type d u, u a slice / map / array type *)
 
 Fixpoint ty_eqb (a b : ty) : bool :=
   match a, b with
@@ -142,13 +145,15 @@ Fixpoint ty_eqb (a b : ty) : bool :=
   | TMap k x, TMap l y => ty_eqb k l && ty_eqb x y
   | TIface i, TIface j => N.eqb i j
   | TAny, TAny => true
+  | TArray n x, TArray m y => Nat.eqb n m && ty_eqb x y
+  | TDef d x, TDef e y => N.eqb d e && ty_eqb x y
   | _, _ => false
   end.
 Lemma ty_eqb_eq : forall a b, ty_eqb a b = true <-> a = b.
 Proof.
-  induction a as [x|n x|n|x IH|x IH|k IHk x IHx|i|]; intros b; split; intro H;
+  induction a as [x|n x|n|x IH|x IH|k IHk x IHx|i| |n x IH|d x IH]; intros b; split; intro H;
     try (subst b; simpl;
-         rewrite ?N.eqb_refl, ?base_eqb_refl; simpl; try reflexivity).
+         rewrite ?N.eqb_refl, ?Nat.eqb_refl, ?base_eqb_refl; simpl; try reflexivity).
   all: try (destruct b; simpl in H; try discriminate H).
   - apply base_eqb_eq in H. now subst.
   - apply andb_true_iff in H. destruct H as [H1 H2].
@@ -163,6 +168,12 @@ Proof.
   - rewrite (proj2 (IHk k) eq_refl), (proj2 (IHx x) eq_refl). reflexivity.
   - apply N.eqb_eq in H. now subst.
   - reflexivity.
+  - apply andb_true_iff in H. destruct H as [H1 H2].
+    apply Nat.eqb_eq in H1. apply IH in H2. now subst.
+  - apply (proj2 (IH x)). reflexivity.
+  - apply andb_true_iff in H. destruct H as [H1 H2].
+    apply N.eqb_eq in H1. apply IH in H2. now subst.
+  - apply (proj2 (IH x)). reflexivity.
 Qed.
 Lemma ty_eqb_refl : forall a, ty_eqb a a = true.
 Proof. intro a. apply ty_eqb_eq. reflexivity. Qed.
@@ -184,6 +195,9 @@ Fixpoint strip_ptr (t : ty) : nat * ty :=
   | _ => (O, t)
   end.
 Definition is_ptr (t : ty) : bool := match t with TPtr _ => true | _ => false end.
+(* unnamed container types: what a defined container type may be defined as *)
+Definition is_cont_ty (t : ty) : bool :=
+  match t with TSlice _ | TMap _ _ | TArray _ _ => true | _ => false end.
 
 Lemma add_ptr_shift : forall n t, add_ptr n (TPtr t) = TPtr (add_ptr n t).
 Proof. induction n; intro t; simpl; [reflexivity | now rewrite IHn]. Qed.
@@ -213,6 +227,8 @@ Fixpoint wf_ty (t : ty) : bool :=
   | TPtr t' => negb (is_iface t') && wf_ty t'
   | TSlice t' => wf_ty t'
   | TMap k t' => key_ty k && wf_ty t'
+  | TArray _ t' => wf_ty t'
+  | TDef _ u => is_cont_ty u && wf_ty u
   | _ => true
   end.
 
@@ -229,7 +245,10 @@ Inductive val : Type :=
 | VPtr (v : val)                                      (* non-nil pointer to v *)
 | VSlice (t : ty) (o : option (list val))             (* []t ; None = nil slice *)
 | VMap (k t : ty) (o : option (list (val * val)))     (* map[k]t ; None = nil map *)
-| VIface (it : ty) (o : option val).                  (* interface position of type it ; None = nil *)
+| VIface (it : ty) (o : option val)                   (* interface position of type it ; None = nil *)
+| VArray (t : ty) (es : list val)                     (* [length es]t *)
+| VDef (d : N) (w : val).                             (* value of the defined container type d, w the
+                                                         slice / map / array it is defined as *)
 
 Section val_ind'.
   Variable P : val -> Prop.
@@ -244,6 +263,8 @@ Section val_ind'.
   Hypothesis HMap : forall k t kvs, Forall (fun kv => P (fst kv) /\ P (snd kv)) kvs -> P (VMap k t (Some kvs)).
   Hypothesis HIfaceN : forall it, P (VIface it None).
   Hypothesis HIface : forall it v, P v -> P (VIface it (Some v)).
+  Hypothesis HArray : forall t es, Forall P es -> P (VArray t es).
+  Hypothesis HDef : forall d w, P w -> P (VDef d w).
 
   Fixpoint val_ind' (v : val) : P v :=
     match v with
@@ -276,6 +297,14 @@ Section val_ind'.
               end) kvs)
     | VIface it None => HIfaceN it
     | VIface it (Some w) => HIface it w (val_ind' w)
+    | VArray t es =>
+        HArray t es
+          ((fix go (es : list val) : Forall P es :=
+              match es with
+              | [] => Forall_nil _
+              | e :: r => Forall_cons e (val_ind' e) (go r)
+              end) es)
+    | VDef d w => HDef d w (val_ind' w)
     end.
 End val_ind'.
 
@@ -290,6 +319,8 @@ Fixpoint ty_of (v : val) : ty :=
   | VSlice t _ => TSlice t
   | VMap k t _ => TMap k t
   | VIface it _ => it
+  | VArray t es => TArray (List.length es) t
+  | VDef d w => TDef d (ty_of w)
   end.
 
 (* dynamic type as reflect.TypeOf reports it: None for a nil interface *)
@@ -373,6 +404,14 @@ Fixpoint wt (env : senv) (v : val) : bool :=
       | None => true
       | Some w => negb (is_iface (ty_of w)) && wt env w
       end
+  | VArray t es =>
+      wf_ty t &&
+      (fix go (es : list val) : bool :=
+         match es with
+         | [] => true
+         | e :: r => wt env e && ty_eqb (ty_of e) t && go r
+         end) es
+  | VDef _ w => is_cont_ty (ty_of w) && wt env w
   end.
 
 Definition has_type (env : senv) (v : val) (t : ty) : bool := wt env v && ty_eqb (ty_of v) t.
@@ -410,6 +449,11 @@ Lemma wt_slice : forall env t es,
 Proof.
   intros env t es. simpl. f_equal. induction es as [|e r IH]; simpl; [reflexivity|now rewrite IH].
 Qed.
+Lemma wt_array : forall env t es,
+  wt env (VArray t es) = wf_ty t && elems_wt env t es.
+Proof.
+  intros env t es. simpl. f_equal. induction es as [|e r IH]; simpl; [reflexivity|now rewrite IH].
+Qed.
 Lemma wt_map : forall env k t kvs,
   wt env (VMap k t (Some kvs)) = key_ty k && wf_ty t && (entries_wt env k t kvs && keys_nodup kvs).
 Proof.
@@ -422,35 +466,46 @@ Qed.
    an undeclared struct are errors, never a value. *)
 Definition E_FUEL : N := 90.
 Definition E_NOSTRUCT : N := 91.
-Fixpoint zero (fuel : nat) (env : senv) (t : ty) : res val :=
-  match t with
-  | TBase b => Ok (VBase b (zero_lit b))
-  | TNamed n b => Ok (VNamed n b (zero_lit b))
-  | TPtr t' => Ok (VNilPtr t')
-  | TSlice t' => Ok (VSlice t' None)
-  | TMap k t' => Ok (VMap k t' None)
-  | TIface _ | TAny => Ok (VIface t None)
-  | TStruct n =>
-      match fuel with
-      | O => Err E_FUEL
-      | S f =>
-          match struct_fields env n with
-          | None => Err E_NOSTRUCT
-          | Some ds =>
-              do fs <- res_mapM (fun d => do z <- zero f env (snd d); Ok (fst d, z)) ds;
-              Ok (VStruct n fs)
-          end
-      end
-  end.
+Fixpoint zero (fuel : nat) (env : senv) (t : ty) {struct fuel} : res val :=
+  (fix zt (t : ty) : res val :=
+     match t with
+     | TBase b => Ok (VBase b (zero_lit b))
+     | TNamed n b => Ok (VNamed n b (zero_lit b))
+     | TPtr t' => Ok (VNilPtr t')
+     | TSlice t' => Ok (VSlice t' None)
+     | TMap k t' => Ok (VMap k t' None)
+     | TIface _ | TAny => Ok (VIface t None)
+     | TArray n t' => do z <- zt t'; Ok (VArray t' (repeat z n))
+     | TDef d u => do z <- zt u; Ok (VDef d z)
+     | TStruct n =>
+         match fuel with
+         | O => Err E_FUEL
+         | S f =>
+             match struct_fields env n with
+             | None => Err E_NOSTRUCT
+             | Some ds =>
+                 do fs <- res_mapM (fun d => do z <- zero f env (snd d); Ok (fst d, z)) ds;
+                 Ok (VStruct n fs)
+             end
+         end
+     end) t.
 Definition zero_fuel (env : senv) : nat := S (List.length env).
 
 Lemma zero_iface : forall fuel env t, is_iface t = true -> zero fuel env t = Ok (VIface t None).
 Proof. intros fuel env t H. destruct t; try discriminate H; destruct fuel; reflexivity. Qed.
 Lemma zero_ty_of : forall fuel env t v, zero fuel env t = Ok v -> ty_of v = t.
 Proof.
-  intros fuel env t v H. destruct t; destruct fuel; simpl in H; try (inversion H; reflexivity).
-  destruct (struct_fields env n); [|discriminate H].
-  destruct (res_mapM _ l); simpl in H; inversion H. reflexivity.
+  intros fuel env t. induction t; intros v H; destruct fuel; simpl in H; try (inversion H; reflexivity).
+  - destruct (struct_fields env n); [|discriminate H].
+    destruct (res_mapM _ l); simpl in H; inversion H. reflexivity.
+  - change ((fix zt (t : ty) : res val := _) t) with (zero 0 env t) in H.
+    destruct (zero 0 env t) as [z| |] eqn:E; simpl in H; inversion H; subst. simpl. now rewrite repeat_length.
+  - change ((fix zt (t : ty) : res val := _) t) with (zero (S fuel) env t) in H.
+    destruct (zero (S fuel) env t) as [z| |] eqn:E; simpl in H; inversion H; subst. simpl. now rewrite repeat_length.
+  - change ((fix zt (t : ty) : res val := _) t) with (zero 0 env t) in H.
+    destruct (zero 0 env t) as [z| |] eqn:E; simpl in H; inversion H; subst. simpl. now rewrite (IHt z eq_refl).
+  - change ((fix zt (t : ty) : res val := _) t) with (zero (S fuel) env t) in H.
+    destruct (zero (S fuel) env t) as [z| |] eqn:E; simpl in H; inversion H; subst. simpl. now rewrite (IHt z eq_refl).
 Qed.
 
 (* ------------------------------------------------- equivalence: nil ~ empty container *)
@@ -470,7 +525,9 @@ Inductive veq : val -> val -> Prop :=
             (match o with Some l => l | None => [] end) (match p with Some l => l | None => [] end) ->
     veq (VMap k t o) (VMap k t p)
 | EqIfaceNil : forall it, veq (VIface it None) (VIface it None)
-| EqIface : forall it v w, veq v w -> veq (VIface it (Some v)) (VIface it (Some w)).
+| EqIface : forall it v w, veq v w -> veq (VIface it (Some v)) (VIface it (Some w))
+| EqArray : forall t es gs, Forall2 veq es gs -> veq (VArray t es) (VArray t gs)
+| EqDef : forall d v w, veq v w -> veq (VDef d v) (VDef d w).
 (* Map entries are compared position-wise: both sides are kept in one canonical entry
    order (the harness sorts by key; the models preserve the order), which implies the
    order-insensitive notion reflect.DeepEqual implements. *)
@@ -490,10 +547,18 @@ Proof.
   - constructor. simpl. induction H; constructor; intuition.
   - constructor.
   - constructor; auto.
+  - constructor. induction H; constructor; auto.
+  - constructor; auto.
 Qed.
 
+Lemma Forall2_len {A B} (R : A -> B -> Prop) : forall l m, Forall2 R l m -> List.length l = List.length m.
+Proof. induction 1; simpl; congruence. Qed.
+
 Lemma veq_ty_of : forall v w, v ≅ w -> ty_of v = ty_of w.
-Proof. induction 1; simpl; try reflexivity. now rewrite IHveq. Qed.
+Proof.
+  induction 1; simpl; try reflexivity; try (now rewrite IHveq).
+  f_equal. eapply Forall2_len; eauto.
+Qed.
 
 Lemma veq_wrap_ptr : forall n v w, v ≅ w -> wrap_ptr n v ≅ wrap_ptr n w.
 Proof. induction n; intros v w H; simpl; [exact H | constructor; auto]. Qed.
@@ -560,6 +625,15 @@ Fixpoint val_eqb (a b : val) : bool :=
       | Some v, Some w => val_eqb v w
       | _, _ => false
       end
+  | VArray t es, VArray u gs =>
+      ty_eqb t u &&
+      (fix go (es gs : list val) {struct es} : bool :=
+         match es, gs with
+         | [], [] => true
+         | e :: es', g :: gs' => val_eqb e g && go es' gs'
+         | _, _ => false
+         end) es gs
+  | VDef d v, VDef e w => N.eqb d e && val_eqb v w
   | _, _ => false
   end.
 
@@ -571,6 +645,7 @@ Proof.
     now rewrite String.eqb_refl, Hw, IH.
   - induction H as [|e r He _ IH]; [reflexivity|]. now rewrite He, IH.
   - induction H as [|[a b] r [Ha Hb] _ IH]; [reflexivity|]. simpl in *. now rewrite Ha, Hb, IH.
+  - induction H as [|e r He _ IH]; [reflexivity|]. now rewrite He, IH.
 Qed.
 
 (* ------------------------------------------------ all basic literals of a value (values,
@@ -588,4 +663,42 @@ Fixpoint lits_of (v : val) : list (base * lit) :=
   | VMap _ _ (Some kvs) => flat_map (fun kv => lits_of (fst kv) ++ lits_of (snd kv)) kvs
   | VIface _ None => []
   | VIface _ (Some w) => lits_of w
+  | VArray _ es => flat_map lits_of es
+  | VDef _ w => lits_of w
+  end.
+
+(* ------------------------------------------------ defined container types of a value.
+   [def_ty v]: the defined container type of v itself, if v is of one;
+   [boxed_defs v]: the defined container types of the values directly held by an interface
+   position inside v (where the static type cannot restore the name);
+   [defs_of v]: of every value inside v *)
+Definition def_ty (v : val) : list ty :=
+  match v with VDef d w => [TDef d (ty_of w)] | _ => [] end.
+Fixpoint boxed_defs (v : val) : list ty :=
+  match v with
+  | VBase _ _ | VNamed _ _ _ | VNilPtr _ => []
+  | VStruct _ fs => flat_map (fun fv => boxed_defs (snd fv)) fs
+  | VPtr w => boxed_defs w
+  | VSlice _ None => []
+  | VSlice _ (Some es) => flat_map boxed_defs es
+  | VMap _ _ None => []
+  | VMap _ _ (Some kvs) => flat_map (fun kv => boxed_defs (fst kv) ++ boxed_defs (snd kv)) kvs
+  | VIface _ None => []
+  | VIface _ (Some w) => def_ty w ++ boxed_defs w
+  | VArray _ es => flat_map boxed_defs es
+  | VDef _ w => boxed_defs w
+  end.
+Fixpoint defs_of (v : val) : list ty :=
+  match v with
+  | VBase _ _ | VNamed _ _ _ | VNilPtr _ => []
+  | VStruct _ fs => flat_map (fun fv => defs_of (snd fv)) fs
+  | VPtr w => defs_of w
+  | VSlice _ None => []
+  | VSlice _ (Some es) => flat_map defs_of es
+  | VMap _ _ None => []
+  | VMap _ _ (Some kvs) => flat_map (fun kv => defs_of (fst kv) ++ defs_of (snd kv)) kvs
+  | VIface _ None => []
+  | VIface _ (Some w) => defs_of w
+  | VArray _ es => flat_map defs_of es
+  | VDef d w => TDef d (ty_of w) :: defs_of w
   end.
